@@ -47,8 +47,74 @@ def bounds(tier):
                 value_product_cap=24)
 
 
+# inheritance from generic bases: (pattern name, source; the last class is the one instantiated, `v` builds a value)
+GENERIC_INHERITANCE = {
+    "same-order": ("@dataclass\nclass GB(DataClassDictMixin, Generic[GU, GV]):\n    u: GU\n    v: List[GV]\n"
+                   "@dataclass\nclass GM(GB[GU, GV], Generic[GU, GV]):\n    m: Optional[GU] = None\n"
+                   "@dataclass\nclass GL(GM[int, date]):\n    pass\n", "GL(1, [date(2020, 1, 2)], 3)"),
+    "partially-specialised": ("@dataclass\nclass GB(DataClassDictMixin, Generic[GU, GV]):\n    u: GU\n    v: List[GV]\n"
+                              "@dataclass\nclass GM(GB[date, GV], Generic[GV]):\n    m: Optional[GV] = None\n"
+                              "@dataclass\nclass GL(GM[int]):\n    pass\n", "GL(date(2020, 1, 2), [1], 3)"),
+    "nested-then-alone": ("@dataclass\nclass GB(DataClassDictMixin, Generic[GU, GV]):\n    item: Tuple[Optional[GU], GV]\n    plain: Dict[GU, GV]\n"
+                          "@dataclass\nclass GL(GB[int, float]):\n    pass\n", "GL((1, 2.5), {3: 4.5})"),
+    "base-of-nested-arg": ("@dataclass\nclass GB(DataClassDictMixin, Generic[GU, GV]):\n    first: GU\n    second: GV\n"
+                           "@dataclass\nclass GM(GB[List[GU], GV], Generic[GU, GV]):\n    pass\n"
+                           "@dataclass\nclass GL(GM[int, float]):\n    pass\n", "GL([1, 2], 2.5)"),
+    "swapped-order": ("@dataclass\nclass GB(DataClassDictMixin, Generic[GU, GV]):\n    u: GU\n    v: GV\n"
+                      "@dataclass\nclass GM(GB[GU, GV], Generic[GV, GU]):\n    pass\n"
+                      "@dataclass\nclass GL(GM[int, date]):\n    pass\n", "GL(u=date(2020, 1, 2), v=1)"),
+    "typevar-reused": ("@dataclass\nclass GB(DataClassDictMixin, Generic[GU]):\n    a: GU\n"
+                       "@dataclass\nclass GM(GB[Optional[GU]], Generic[GU]):\n    pass\n"
+                       "@dataclass\nclass GL(GM[date]):\n    pass\n", "GL(date(2020, 1, 2))"),
+    "arg-mentions-param-twice": ("@dataclass\nclass GB(DataClassDictMixin, Generic[GU, GV]):\n    a: GU\n    b: GV\n"
+                                 "@dataclass\nclass GM(GB[List[GV], GV], Generic[GV]):\n    pass\n"
+                                 "@dataclass\nclass GL(GM[date]):\n    pass\n", "GL([date(2020, 1, 2)], date(2021, 3, 4))"),
+}
+
+
+def run_geninh(unit):
+    import datetime
+    _, pattern, _ = unit
+    res = core.UnitResult()
+    src, mk = GENERIC_INHERITANCE[pattern]
+    facts = dict(generic_inheritance=pattern)
+    with space.Ctx() as ctx:
+        import typing
+        ctx.ns.update(GU=typing.TypeVar("GU"), GV=typing.TypeVar("GV"), date=datetime.date, Tuple=typing.Tuple)
+        res.cases += 1
+        res.transitions += 2
+        try:
+            ctx.run(src)
+            v = eval(mk, ctx.ns)
+            enc = v.to_dict()
+            back = type(v).from_dict(enc)
+        except RecursionError:
+            res.violation(f"build-failed|geninh|{pattern}", "build-failed", "RecursionError",
+                          dict(desc=("geninh", pattern), config="default", mode="module", entry="mixin", value_index=0, facts=facts), "RecursionError")
+            return res
+        except Exception as e:   # noqa: BLE001
+            res.violation(f"encode-raised|geninh|{pattern}", "encode-raised", e1.exc_class(e),
+                          dict(desc=("geninh", pattern), config="default", mode="module", entry="mixin", value_index=0, facts=facts), repr(e)[:300])
+            return res
+        import json
+        try:
+            json.dumps(enc)
+            basic = True
+        except TypeError:
+            basic = False
+        if back != v or not basic or not ref.same(back, v):
+            res.violation(f"roundtrip-neq|geninh|{pattern}", "roundtrip-neq", "neq",
+                          dict(desc=("geninh", pattern), config="default", mode="module", entry="mixin", value_index=0, facts=facts),
+                          f"value={v!r} enc={enc!r} back={back!r}")
+        else:
+            res.outcomes["ok"] += 1
+            res.nontrivial += 1
+    res.states += 1
+    return res
+
+
 def units(tier):
-    out = []
+    out = [(("geninh", p), "default", "module") for p in GENERIC_INHERITANCE]
     for d in space.schemas(tier):
         out.append((d, "default", "module"))
         if space.has_kind(d, CLASSY) and space.depth(d) <= 2:
@@ -81,6 +147,8 @@ def _nocopy_dialect():
 def run_case(unit, res=None, want_violations=None):
     """Executes every value of the unit through every entry point."""
     d, cfgname, mode = unit
+    if d[0] == "geninh":
+        return run_geninh((d[0], d[1], None))
     cfg = dict(CONFIGS[cfgname])
     viol = []
     res = res or core.UnitResult()
